@@ -83,6 +83,7 @@ func c14RealTimeRun(c *core.Collector, x *Ctx, short bool) {
 			}
 			// every third scenario has a platform command outstanding while the re-request is produced (answered afterwards)
 			var cmdRes chan cmdResult
+			answerCmd := func() {}
 			if i%3 == 0 {
 				time.Sleep(5700 * time.Millisecond)
 				cmdRes = make(chan cmdResult, 1)
@@ -97,8 +98,9 @@ func c14RealTimeRun(c *core.Collector, x *Ctx, short bool) {
 					bad("unexpected frame", fmt.Sprintf("expected the platform command, got %x", rx.Raw))
 					return
 				}
-				defer func(pserial uint16) {
-					t.Write(t.Frame(0x0001, 0x7001, []byte{byte(pserial >> 8), byte(pserial), 0x81, 0x04, 0}))
+				cmdSerial := rx.F.Serial
+				answerCmd = func() {
+					t.Write(t.Frame(0x0001, 0x7001, []byte{byte(cmdSerial >> 8), byte(cmdSerial), 0x81, 0x04, 0}))
 					select {
 					case res := <-cmdRes:
 						if res.kind != "response" {
@@ -107,7 +109,7 @@ func c14RealTimeRun(c *core.Collector, x *Ctx, short bool) {
 					case <-time.After(20 * time.Second):
 						c.Inconclusive()
 					}
-				}(rx.F.Serial)
+				}
 				time.Sleep(300 * time.Millisecond)
 			} else {
 				time.Sleep(6000 * time.Millisecond) // the server's idle clock starts when IT has handled the last packet: margin for a loaded machine
@@ -168,6 +170,8 @@ func c14RealTimeRun(c *core.Collector, x *Ctx, short bool) {
 					}
 				}
 			}
+			// the outstanding command (if any) is answered now, well inside its 8 s timeout, before the scenario goes on
+			answerCmd()
 			expire := i%2 == 1 && !short
 			if expire {
 				time.Sleep(56 * time.Second) // > 61 s since packet 1
